@@ -1,4 +1,5 @@
-Require Import Base Command.
+Require Import Base Generated Utf8 Command.
+From Coq Require Import ZifyBool ZifyNat ZifyN.
 Local Open Scope N_scope.
 
 Lemma split_nonempty s : split s <> [].
@@ -111,17 +112,50 @@ Proof.
 Qed.
 
 (* ---- Parse ---- *)
-Lemma to_lower_fix s : to_lower s = s <-> no_upper s.
+Lemma in_ranges_iff r t : in_ranges r t = true <-> exists lo hi, In (lo, hi) t /\ lo <= r <= hi.
 Proof.
-  unfold to_lower, no_upper. induction s as [|c s IH]; cbn [map].
-  - split; [constructor | reflexivity].
-  - split.
-    + intros [= Hc Hs]. constructor; [|apply IH; exact Hs].
-      unfold lower_c in Hc. destruct ((65 <=? c) && (c <=? 90)) eqn:E; [lia|].
-      apply andb_false_iff in E. rewrite !N.leb_gt in E. lia.
-    + intros H. inversion H as [|? ? Hc Hs]; subst. f_equal; [|apply IH; exact Hs].
-      unfold lower_c. destruct ((65 <=? c) && (c <=? 90)) eqn:E; [|reflexivity].
-      apply andb_true_iff in E. rewrite !N.leb_le in E. lia.
+  unfold in_ranges. rewrite existsb_exists. split.
+  - intros ([lo hi] & Hin & H). apply andb_true_iff in H as [H1 H2]. apply N.leb_le in H1, H2. exists lo, hi. auto.
+  - intros (lo & hi & Hin & H1 & H2). exists (lo, hi). split; [exact Hin|]. cbn [fst snd].
+    apply andb_true_iff. split; apply N.leb_le; assumption.
+Qed.
+
+Lemma lower_fixed_iff s : lower_fixed s = true <-> no_upper s.
+Proof.
+  unfold lower_fixed, no_upper, lower_changed. destruct (runes s) as [rs|].
+  - rewrite forallb_forall. split.
+    + intros H. exists rs. split; [reflexivity|]. apply Forall_forall. intros r Hr Hc.
+      specialize (H r Hr). apply negb_true_iff in H. apply in_ranges_iff in Hc. congruence.
+    + intros (rs' & [= <-] & H) r Hr. rewrite Forall_forall in H. specialize (H r Hr).
+      apply negb_true_iff. destruct (in_ranges r lower_changes) eqn:E; [|reflexivity].
+      apply in_ranges_iff in E. contradiction.
+  - split; [discriminate|]. intros (rs & H & _). discriminate.
+Qed.
+
+(* on ASCII text the test is the familiar one *)
+Lemma ascii_table : forallb (fun c => Bool.eqb (in_ranges c lower_changes) ((65 <=? c) && (c <=? 90))) (map N.of_nat (seq 0 128)) = true.
+Proof. vm_compute. reflexivity. Qed.
+
+Lemma ascii_changed c : c < 128 -> in_ranges c lower_changes = ((65 <=? c) && (c <=? 90)).
+Proof.
+  intros Hc. pose proof ascii_table as H. rewrite forallb_forall in H.
+  specialize (H c). apply eqb_prop. apply H. apply in_map_iff. exists (N.to_nat c). split; [lia|].
+  apply in_seq. lia.
+Qed.
+
+Lemma runes_f_ascii s : Forall (fun c => c < 128) s -> forall f, (length s < f)%nat -> runes_f f s = Some s.
+Proof.
+  induction 1 as [|c s Hc Hs IH]; intros f Hf; (destruct f as [|f]; [cbn in Hf; lia|]); cbn [runes_f]; [reflexivity|].
+  unfold decode1. destruct (N.ltb_spec c 128); [|lia]. rewrite IH by (cbn in Hf; lia). reflexivity.
+Qed.
+
+Theorem no_upper_ascii s : Forall (fun c => c < 128) s -> (no_upper s <-> Forall (fun c => ~ (65 <= c <= 90)) s).
+Proof.
+  intros Ha. rewrite <- lower_fixed_iff. unfold lower_fixed, runes. rewrite (runes_f_ascii s Ha) by lia.
+  rewrite forallb_forall, Forall_forall. rewrite Forall_forall in Ha.
+  split; intros H c Hc; specialize (H c Hc); specialize (Ha c Hc); rewrite (ascii_changed c Ha) in *.
+  - apply negb_true_iff, andb_false_iff in H. rewrite !N.leb_gt in H. lia.
+  - apply negb_true_iff, andb_false_iff. rewrite !N.leb_gt. lia.
 Qed.
 
 Theorem parse_exact s s' : parse s = Ok s' <-> valid s /\ s' = s.
@@ -134,16 +168,16 @@ Proof.
   - split; [discriminate|]. intros [(_ & [E|E] & _) _].
     + injection E as ->. cbn in Ht. discriminate.
     + apply andb_true_iff in Ht as [_ Ht]. apply N.eqb_eq in Ht. contradiction.
-  - destruct (str_eqb (sep :: s0) (to_lower (sep :: s0))) eqn:El; cbn [negb].
-    + apply str_eqb_eq in El. symmetry in El. apply to_lower_fix in El.
+  - destruct (lower_fixed (sep :: s0)) eqn:El; cbn [negb].
+    + apply lower_fixed_iff in El.
       split.
       * intros [= <-]. repeat split; eauto.
         apply andb_false_iff in Ht as [Ht|Ht].
         -- left. apply Nat.ltb_ge in Ht. cbn in Ht. destruct s0; [reflexivity|cbn in Ht; lia].
         -- right. apply N.eqb_neq in Ht. exact Ht.
       * intros [_ ->]. reflexivity.
-    + split; [discriminate|]. intros [(_ & _ & Hu) _]. apply to_lower_fix in Hu.
-      rewrite Hu, str_eqb_refl in El. discriminate.
+    + split; [discriminate|]. intros [(_ & _ & Hu) _]. apply lower_fixed_iff in Hu.
+      rewrite Hu in El. discriminate.
 Qed.
 
 (* ---- Join ---- *)
